@@ -79,6 +79,8 @@ class Config:
                             self.opt, self.macro_name)
         if "-DAVEL_AUTO_DETECT" in self.extra:
             n += "-autodetect" + "".join(e.replace("-march=", "-") for e in self.extra if e.startswith("-march="))
+        if "-fstrict-aliasing" in self.extra:
+            n += "-strictalias"
         if "-DVP_DEFAULT_FP" in self.extra:
             n += "-defaultfp" + "".join(e.replace("-m", "+") for e in self.extra if e.startswith("-m") and not e.startswith("-march="))
         lines = [e.split("=")[1] for e in self.extra if e.startswith("-DAVEL_L") and "CACHE_LINE_SIZE=" in e]
